@@ -8,7 +8,7 @@ from __future__ import annotations
 import ast
 from typing import Dict, List, Optional, Set, Tuple
 
-from ..core import Collector, guarded, norm, Unrecognised, AnchorMissing
+from ..core import Collector, guarded, acquire_grammar, norm, Unrecognised, AnchorMissing
 from ..grammar import G, top_shape, flatten_and, flatten_alt, named_nodes, names_out, walk, GrammarModel
 from .. import gtools as gt
 from ..pyindex import walk_no_nested
@@ -114,12 +114,14 @@ def swallowing_handlers(tree: ast.AST) -> List[ast.ExceptHandler]:
 
 def run(ctx, col: Collector):
     idx = ctx.idx
-    gm = gm_of(ctx)
-    col.stat('grammar_nodes', len(gm.reachable()))
-    col.stat('grammar_action_nodes', len(gm.action_nodes()))
-    col.stat('definition_modules', len(gm.ev.order))
-    col.floor('C07-grammar', 'grammar IR nodes', len(gm.reachable()), 600)
-    col.floor('C07-grammar', 'definition modules', len(gm.ev.order), 10)
+    gm = acquire_grammar(ctx, col, 'C07-grammar')
+    def stats():
+        col.stat('grammar_nodes', len(gm.reachable()))
+        col.stat('grammar_action_nodes', len(gm.action_nodes()))
+        col.stat('definition_modules', len(gm.ev.order))
+        col.floor('C07-grammar', 'grammar IR nodes', len(gm.reachable()), 600)
+        col.floor('C07-grammar', 'definition modules', len(gm.ev.order), 10)
+    guarded(col, 'C07-grammar', 'stats', stats)
 
     # ---------------------------------------------------------------- C07-anchor
     def anchoring():
@@ -334,6 +336,19 @@ def run(ctx, col: Collector):
                                     node=_N(a), file=a.file)
     guarded(col, 'C07-settings', 'settings-lists', settings_lists)
 
+    def property_form_off():
+        # `key: 'value'` is an unknown construct unless arbitrary properties are enabled (rule shared with C15)
+        from . import c15
+        sub = Collector(col.prop)
+        c15.run(ctx, sub)
+        n = 0
+        for o in sub.obs:
+            if o.rule == 'C15-select' and o.construct.startswith('allow_properties=False'):
+                n += 1
+                col.obs.append(type(o)(col.prop, 'C07-settings', 'property-form:' + o.construct, o.status, o.msg, o.file, o.line, o.extra))
+        col.floor('C07-settings', 'property-form obligations (option off)', n, 1)
+    guarded(col, 'C07-settings', 'property-form-off', property_form_off)
+
     # ---------------------------------------------------------------- C07-pair
     def pairing():
         npairs = 0
@@ -387,6 +402,8 @@ def run(ctx, col: Collector):
         WS = set(' \t\r\n')
 
         def is_free(g: G) -> bool:
+            if g.kind == 'regex' and gt.comment_forms(g) is not None:
+                return False       # a comment token written as a regular expression: judged below
             if g.kind in ('skipto', 'regex'):
                 return True
             if g.kind == 'charsnotin':
@@ -427,6 +444,32 @@ def run(ctx, col: Collector):
                       f'unbounded matcher `{g.kind}` at {g.file}:{g.line} is reachable without an opening (and closing) delimiter literal in its '
                       f'sequence: arbitrary text would be consumed silently', node=_N(g), file=g.file)
     guarded(col, 'C07-freetext', 'free-text', freetext)
+
+    def comments():
+        # a `//` comment ends at the end of its line, whatever form the token is written in
+        toks = []
+        seen = set()
+        for g in gm.reachable():
+            if g.kind in ('first', 'or', 'regex', 'and') and g.uid not in seen:
+                f = gt.comment_forms(g)
+                if f is not None and (g.kind != 'and'):
+                    seen.add(g.uid)
+                    toks.append((g, f))
+        col.floor('C07-freetext', 'comment tokens', len(toks), 1)
+        done = set()
+        for g, forms in toks:
+            key = (g.module, g.line, tuple(forms))
+            if key in done:
+                continue
+            done.add(key)
+            spans = [f for f in forms if f[0] == 'line' and f[1]]
+            col.check(not spans, 'C07-freetext', f'comment-token:{g.module.split(".")[-1]}:{g.var or g.kind}@{g.line}:line-comment-ends-at-line-end',
+                      'a `//` comment cannot run past the end of its line',
+                      f'the comment token {g.var or g.label()} ({g.file}:{g.line}) lets a `//` comment continue over a line break (e.g. a comment line ending '
+                      f'in a backslash): the following line - whatever it contains - is swallowed as comment text', node=_N(g), file=g.file)
+            col.check({f[0] for f in forms} == {'line', 'block'}, 'C07-freetext', f'comment-token:{g.module.split(".")[-1]}:{g.var or g.kind}@{g.line}:forms',
+                      'comment token = // line comment | /* block comment */', f'comment token accepts forms {sorted({f[0] for f in forms})}', node=_N(g), file=g.file)
+    guarded(col, 'C07-freetext', 'comment-tokens', comments)
 
     # ---------------------------------------------------------------- C07-strings
     def strings():
